@@ -159,10 +159,16 @@ Print Assumptions C06_run_id_monotone_invariant.
    statistics feed, deliveries to listeners, random draws; producer, streams
    and reported statistics are equal ("with the same seeds": the streams are
    part of this model). *)
-Theorem C06_composed_reinit_fresh : forall nint M r y fuel hf h,
+Theorem C06_composed_reinit_fresh : forall nint M r y pre' g fuel hf h,
   running (y_sim y) = false -> NoDup (keys_of (ym_stats M)) ->
+  (* SimEvent objects built before initialize and handed to schedule_event(event)
+     later keep their ids: [y_pre y] in the old process state, [pre'] those of
+     the brand-new model -- only their order and "below the id counter" matter *)
+  map g (y_pre y) = pre' ->
+  (forall a b, In a (y_pre y) -> In b (y_pre y) -> a < b -> g a < g b) ->
+  (forall a, In a (y_pre y) -> a < nid (y_sim y)) -> (forall a, In a (y_pre y) -> g a < 0) ->
   let a := fst (fst (ydo_init nint M hf y r)) in
-  let b := fst (fst (ydo_init nint M hf (y0 (strat (y_sim y))) r)) in
+  let b := fst (fst (ydo_init nint M hf (y0p (strat (y_sim y)) pre') r)) in
   let ra := y_hist nint fuel hf a h in
   let rb := y_hist nint fuel hf b h in
   let ya := fst (fst ra) in let yb := fst (fst rb) in
